@@ -133,6 +133,8 @@ def jobs(prop, tier, seed):
                 out.append(dict(harness="C20", variant="cache", pid=pid, root=i, api=api, events=1 if tier == "quick" else 2, opts={}, bounds={}, budget_s=60 if tier == "quick" else 400))
     for pid in ("mutual", "self", "generic"):
         out.append(dict(harness="C20", variant="lazy", pid=pid, opts={}, bounds={}, budget_s=60))
+    for pid in SHARED:
+        out.append(dict(harness="C20", variant="shared", pid=pid, opts={}, bounds={}, budget_s=60))
     return out
 
 
@@ -190,7 +192,7 @@ class Cache:
         self.expect_tags = ["interfered"]
         self.assumptions = [
             "T2's first use is atomic between two cache accesses of T1 (coarser than arbitrary pre-emption)",
-            "single dict / lru_cache operations are atomic under the GIL",
+            "single dict operations are atomic under the GIL; an lru_cache miss runs its function unlocked (modelled)",
         ]
         self.relax = ()
         self.baseline = self.sequential()
@@ -245,13 +247,23 @@ class Cache:
         self.reset()
         store = {}
 
+        t1 = threading.get_ident()
+
         def hooked_cache(checker_cls):
-            if checker_cls not in store:
-                h = Hooked()
-                h.hook = hook
-                h.owner = threading.get_ident()
-                store[checker_cls] = h
-            return store[checker_cls]
+            # functools.lru_cache semantics: on a miss the function body runs unlocked (a
+            # switch point); if another thread stored the key meanwhile, the computed result
+            # is returned but NOT stored
+            if checker_cls in store:
+                return store[checker_cls]
+            h = Hooked()
+            h.hook = hook
+            h.owner = t1
+            if threading.get_ident() == t1:
+                hook("cache-miss")
+            if checker_cls in store:
+                return h
+            store[checker_cls] = h
+            return h
 
         self._orig_cache = R.recursion_cache
         R.recursion_cache = hooked_cache
@@ -453,5 +465,182 @@ class Lazy:
         return None
 
 
+SHARED = {
+    # one compiled method shared by both threads, values of two classes at Any-typed positions
+    "any": dict(tp="Any", api="serialize", a="Cat(s1, i1)", b="Dog(s2, i2)"),
+    "list_any": dict(tp="List[Any]", api="serialize", a="[Cat(s1, i1), Dog(s1, i1)]", b="[Dog(s2, i2), Cat(s2, i2)]"),
+    "dict_any": dict(tp="Dict[str, Any]", api="serialize", a="{'k': Cat(s1, i1)}", b="{'k': Dog(s2, i2), 'l': 0}"),
+    "holder_any": dict(tp="Holder", api="serialize", a="Holder(Cat(s1, i1))", b="Holder(Dog(s2, i2), [Cat(s2, i2)])"),
+    "union": dict(tp="Union[Cat, Dog]", api="serialize", a="Cat(s1, i1)", b="Dog(s2, i2)"),
+    "fallback": dict(tp="Base", api="serialize", kw="fall_back_on_any=True", a="Sub1(i1, s1)", b="Sub2(i2, i2)"),
+    "rec_ser": dict(tp="Node", api="serialize", a="Node(i1, Node(i2))", b="Node(i2, None, [Node(i1)])"),
+    "rec_deser": dict(tp="Node", api="deserialize", a="{'v': i1, 'nxt': {'v': i2}}", b="{'v': i2, 'kids': [{'v': i1}]}"),
+    "union_deser": dict(tp="Union[Cat, Dog]", api="deserialize", a="{'name': s1, 'lives': i1}", b="{'name': s2, 'legs': i2}"),
+}
+SHARED_SRC = '''
+@dataclass
+class Cat:
+    name: str
+    lives: int = 9
+
+@dataclass
+class Dog:
+    name: str
+    legs: int = 4
+
+@dataclass
+class Holder:
+    x: Any
+    more: List[Any] = field(default_factory=list)
+
+@dataclass
+class Base:
+    k: int = 0
+
+@dataclass
+class Sub1(Base):
+    extra: str = ""
+
+@dataclass
+class Sub2(Base):
+    other: int = 0
+
+@dataclass
+class Node:
+    v: int
+    nxt: Optional["Node"] = None
+    kids: List["Node"] = field(default_factory=list)
+'''
+
+
+class Shared:
+    """one compiled method used by two threads at once: every attribute store T1 performs on
+    an object of the compiled tree (methods, fields, fallbacks, constructors) is a switch
+    point after which T2 makes a complete call on the same method; both calls, and a
+    follow-up call of each, return what they return alone"""
+
+    def __init__(self, job):
+        from apischema import ValidationError, deserialization_method, serialization_method
+
+        self.method_note = "switch points (attribute stores on the shared compiled tree) enumerated by forks; data symbolic"
+        self.job = job
+        self.S = SHARED[job["pid"]]
+        self.mod = exec_module("vf_c20s", HEAD + SHARED_SRC)
+        self.ns = self.mod.__dict__
+        self.tp = eval(self.S["tp"], self.ns)
+        self.VE = ValidationError
+        self.make = deserialization_method if self.S["api"] == "deserialize" else serialization_method
+        self.kw = eval("dict(%s)" % self.S.get("kw", ""))
+        self.functions = [
+            "apischema.serialization.methods.* (attribute stores hooked)",
+            "apischema.deserialization.methods.* (attribute stores hooked)",
+        ]
+        self.expect_tags = ["interfered"]
+        self.assumptions = ["T2's call is atomic after one of T1's attribute stores; GIL-atomic single stores", "switch points = stores to objects of the compiled method tree"]
+        self.relax = ()
+
+    def classes(self):
+        import apischema.deserialization.methods as DM
+        import apischema.serialization.methods as SM
+
+        return [c for m in (DM, SM) for c in vars(m).values() if isinstance(c, type) and c.__module__ == m.__name__ and not issubclass(c, BaseException)]
+
+    def outcome(self, m, x):
+        try:
+            return ("ok", m(x))
+        except self.VE as e:
+            return ("err", e.errors)
+        except Exception as e:
+            return ("raise", type(e).__name__)
+
+    def fresh(self):
+        import apischema.cache
+
+        apischema.cache.reset()
+        return self.make(self.tp, **self.kw)
+
+    def run(self, m, a, b, at, threaded):
+        """T1 = m(a); after T1's store number `at` (0 = before T1 starts), T2 = m(b)"""
+        state = {"n": 0, "busy": False, "t2": None}
+
+        def t2():
+            state["t2"] = self.outcome(m, b)
+
+        def switch():
+            if threaded:
+                th = threading.Thread(target=t2)
+                th.start()
+                th.join(60)
+            else:
+                t2()
+
+        def hooked(obj, name, value):
+            object.__setattr__(obj, name, value)
+            if state["busy"]:
+                return
+            state["n"] += 1
+            if state["n"] == at:
+                state["busy"] = True
+                try:
+                    switch()
+                finally:
+                    state["busy"] = False
+
+        classes = self.classes()
+        for c in classes:
+            c.__setattr__ = hooked
+        try:
+            if at == 0:
+                state["busy"] = True
+                switch()
+                state["busy"] = False
+            t1 = self.outcome(m, a)
+        finally:
+            for c in classes:
+                try:
+                    del c.__setattr__
+                except AttributeError:
+                    pass
+        return t1, state["t2"], state["n"]
+
+    def body(self, ctx: Ctx):
+        env = dict(self.ns)
+        env.update(s1=ctx.str("s1", 1), s2=ctx.str("s2", 1), i1=ctx.int("i1"), i2=ctx.int("i2"))
+        a, b = eval(self.S["a"], env), eval(self.S["b"], env)
+        ctx.witness = {"t1": a, "t2": b}
+        ctx.run_phase()
+        ctx.notes["tag:interfered"] = True
+        base = self.fresh()
+        exp1, exp2 = self.outcome(base, a), self.outcome(base, b)
+        threaded = ctx.concrete is not None
+        # the stores T1 performs alone on a fresh method (first use: lazy initialisations)
+        _, _, n_first = self.run(self.fresh(), a, b, -1, False)
+        # ... and on a warm one
+        warm = self.fresh()
+        self.outcome(warm, a), self.outcome(warm, b)
+        _, _, n_warm = self.run(warm, a, b, -1, False)
+        first = ctx.flag("first-use")
+        at = ctx.choice((n_first if first else n_warm) + 1, "switch")
+        m = self.fresh()
+        if not first:
+            self.outcome(m, a), self.outcome(m, b)
+        ctx.witness = {"t1": a, "t2": b, "first_use": bool(first), "switch_after_store": at}
+        t1, t2, _ = self.run(m, a, b, at, threaded)
+
+        def eq(x, y):
+            return x[0] == y[0] and (same(x[1], y[1]) if x[0] == "ok" else x[1] == y[1])
+
+        if not eq(t1, exp1):
+            return Failure("shared-method-result-differs-under-interference", witness=ctx.witness, extra={"t1": t1, "expected": exp1})
+        if t2 is None or not eq(t2, exp2):
+            return Failure("concurrent-call-result-differs", witness=ctx.witness, extra={"t2": t2, "expected": exp2})
+        after1, after2 = self.outcome(m, a), self.outcome(m, b)
+        if not eq(after1, exp1) or not eq(after2, exp2):
+            return Failure("shared-method-corrupted-after-interference", witness=ctx.witness, extra={"after": [after1, after2], "expected": [exp1, exp2]})
+        return None
+
+
 def make(job):
+    if job["variant"] == "shared":
+        return Shared(job)
     return Lazy(job) if job["variant"] == "lazy" else Cache(job)
